@@ -26,10 +26,19 @@ def fname(fn: FunctionInfo) -> str:
     return f"{fn.cls.name}.{fn.name}" if fn.cls else fn.qualname.replace("linear_operator.", "", 1)
 
 
-def left_events(node_ast: ast.AST, name: str) -> List[ast.AST]:
-    """Applications of the left factor inside one statement / test."""
+def left_events(node_ast: ast.AST, name: str, holders: Optional[Set[str]] = None) -> List[ast.AST]:
+    """Applications of the left factor inside one statement / test.  `holders`: locals bound to a tuple / list display that
+    contains the factor (solve_tensors = (left, right) if has_left else (right,)); handing such a holder to a call - starred
+    or not - hands the factor to that delegate."""
     out: List[ast.AST] = []
+    holders = holders or set()
     for x in ast.walk(node_ast):
+        if isinstance(x, ast.Call) and holders:
+            via = [a for a in x.args if (isinstance(a, ast.Starred) and isinstance(a.value, ast.Name) and a.value.id in holders)
+                   or (isinstance(a, ast.Name) and a.id in holders)]
+            if via and (dotted(x.func) or "") not in ("len", "isinstance", "tuple", "list"):
+                out.append(x)
+                continue
         if isinstance(x, ast.BinOp) and isinstance(x.op, ast.MatMult):
             if any(isinstance(y, ast.Name) and y.id == name for y in ast.walk(x.left)):
                 out.append(x)
@@ -60,6 +69,12 @@ def rule_left(idx: ProgramIndex, rep: Report):
     for fn in defs:
         name = next(p for p in fn.params() if p in LEFT_NAMES)
         cfg = CFG(fn)
+        holders: Set[str] = set()
+        for n_ in walk_body(fn):
+            if isinstance(n_, ast.Assign) and len(n_.targets) == 1 and isinstance(n_.targets[0], ast.Name):
+                vals = [n_.value.body, n_.value.orelse] if isinstance(n_.value, ast.IfExp) else [n_.value]
+                if any(isinstance(v_, (ast.Tuple, ast.List)) and any(isinstance(e_, ast.Name) and e_.id == name for e_ in v_.elts) for v_ in vals):
+                    holders.add(n_.targets[0].id)
 
         def prune(a: int, b: int, pol: Optional[bool]) -> bool:
             na = cfg.nodes[a]
@@ -85,7 +100,7 @@ def rule_left(idx: ProgramIndex, rep: Report):
                     a = a.iter
                 elif nd.kind == "with":
                     continue
-                cnt += len(left_events(a, name))
+                cnt += len(left_events(a, name, holders))
             if cnt != 1 and cnt not in bad:
                 bad[cnt] = path
         if n_paths == 0:
@@ -99,7 +114,7 @@ def rule_left(idx: ProgramIndex, rep: Report):
             for nid in path:
                 nd = cfg.nodes[nid]
                 if nd.ast is not None and nd.kind in ("stmt", "test"):
-                    for ev in left_events(nd.ast, name):
+                    for ev in left_events(nd.ast, name, holders):
                         sites.append(f"L{nd.lineno}: {short(ev, 70)}")
             how = "never applied (dropped)" if cnt == 0 else f"applied {cnt} times"
             rep.bad("C04.L", Finding(
@@ -143,7 +158,7 @@ def rule_orientation(idx: ProgramIndex, rep: Report):
             else:
                 names = {"L": "lower", "U": "upper"}
                 rep.bad("C04.O", Finding(
-                    PROP, "C04.O", fname(fn), f"{s.what}: {norm(s.node)}",
+                    PROP, "C04.O", fname(fn), f"{s.what} receives a factor of the other orientation",
                     f"{fname(fn)}: under {s.sigma or 'every assignment'} the factor passed to {s.what} is "
                     f"{names[s.actual]}-triangular but the call says upper={s.expected}: the kernel reads the wrong "
                     "triangle (solves with this factor are wrong while its dense value is right)", fn.loc(s.node)))
